@@ -19,7 +19,9 @@ struct Behaviour {
     needs_eof: bool,
 }
 
-const BEHAVIOURS: [Behaviour; 9] = [
+const BEHAVIOURS: [Behaviour; 10] = [
+    // the program cannot be started at all: the forked child of the attempt is nobody's to reap but the handle's
+    Behaviour { name: "fails-to-start", script: "x0", produces: 0, needs_eof: false },
     // closes its stdin at once (the parent's input runs into EPIPE), then writes more than a pipe holds
     Behaviour { name: "closes-stdin-then-writes", script: "c0,w@:300000:8192,x0", produces: 300000, needs_eof: true },
     Behaviour { name: "exits-at-once", script: "x0", produces: 0, needs_eof: false },
@@ -67,12 +69,19 @@ fn case(ctx: &mut Ctx, rng: &mut Rng, i: u64) {
     let rep = dir.join("rep");
     let stream = if handle == "stream_stderr" { 2 } else { 1 };
     let mut e = io_exec(ctx, b.script, stream, &rep);
+    if b.name == "fails-to-start" {
+        e = Exec::cmd(dir.join("no-such-program")).arg("x");
+    }
     if (unattended && handle != "pl_join") || handle == "stream_stdin" {
         // output nobody reads goes to /dev/null so that it cannot block
         e = e.stdout(subprocess::NullFile);
     }
     if detached {
         e = e.detached();
+        // every other detached command is started from a clone: a clone describes the same command, detached included
+        if i % 2 == 0 {
+            e = e.clone();
+        }
     }
     let p1 = passthrough(ctx, 1, &dir.join("rep1"));
     let p1 = if detached { p1.detached() } else { p1 };
@@ -163,6 +172,23 @@ fn case(ctx: &mut Ctx, rng: &mut Rng, i: u64) {
             .set("events_tail", J::arr_s(&ilog::fmt_tail(&evs.iter().filter(|e| e.kind != k::READ && e.kind != k::WRITE).cloned().collect::<Vec<_>>(), 30)))
             .set("detail", extra)
     };
+    if b.name == "fails-to-start" {
+        // whatever the terminator returned (an error), nothing of the attempt may be left
+        ctx.count("failed_launches_audited", 1);
+        for p in &pids {
+            spawn::wait_dead(*p, 500);
+        }
+        // commands of a pipeline that did start and are detached are not the handle's to wait for; the child forked
+        // for the command that failed (the last fork of the attempt) always is
+        let audited: Vec<i32> = if detached { pids.last().cloned().into_iter().collect() } else { pids.clone() };
+        let left = spawn::surviving(&audited);
+        if !left.is_empty() {
+            ctx.violation(&format!("C12/zombie-after-failed-launch/{}", handle), "the child forked for a command that could not be started was not reaped", w(J::s(&format!("{:?}", left))));
+        }
+        ctx.distinct(&tag);
+        run::end_case();
+        return;
+    }
     if let Some(c) = &m.cert {
         ctx.violation(
             &format!("C12/drop-hang/{}/{}", handle, b.name),
